@@ -187,6 +187,32 @@ Fixpoint sval_eqb (a b : sval) {struct a} : bool :=
   | _, _ => false
   end.
 
+(* equality up to order and multiplicity inside sequences: a decoder that collects a sequence into
+   an ordered set (BTreeSet) hands back the same elements sorted and de-duplicated *)
+Fixpoint sval_sim (a b : sval) {struct a} : bool :=
+  match a, b with
+  | VSome x, VSome y => sval_sim x y
+  | VVariant n x, VVariant m y => bytes_eqb n m && sval_sim x y
+  | VSeq l, VSeq l' =>
+      forallb (fun x => existsb (fun y => sval_sim x y) l') l &&
+      forallb (fun y => existsb (fun x => sval_sim x y) l) l'
+  | VTuple l, VTuple l' =>
+      (fix go (l l' : list sval) : bool :=
+         match l, l' with
+         | [], [] => true
+         | x :: r, y :: r' => sval_sim x y && go r r'
+         | _, _ => false
+         end) l l'
+  | VMap l, VMap l' =>
+      (fix go (l l' : list sval) : bool :=
+         match l, l' with
+         | [], [] => true
+         | x :: r, y :: r' => sval_sim x y && go r r'
+         | _, _ => false
+         end) l l'
+  | _, _ => sval_eqb a b
+  end.
+
 (* ---- UTF-8 validity as `core::str::from_utf8` decides it (no overlong forms, no surrogates,
         nothing above U+10FFFF) ---- *)
 Definition is_cont (b : N) : bool := (128 <=? b) && (b <=? 191).
